@@ -14,9 +14,10 @@ COMPAT_TAGS = ('MANIFEST', 'DATA', 'EBUILD', 'AUX')
 
 def psw(path, prefix):
     """component-wise 'path starts with prefix'"""
+    prefix = prefix.rstrip('/')
     if prefix == '':
         return True
-    return path == prefix or path.startswith(prefix.rstrip('/') + '/')
+    return path == prefix or path.startswith(prefix + '/')
 
 
 def pjoin(a, b):
